@@ -508,7 +508,7 @@ func localSliceElems(s ssa.Value) ([]ssa.Value, bool) {
 				}
 			case ssa.CallInstruction:
 				// append(args, x): element x
-				if b, isB := y.Common().Value.(*ssa.Builtin); isB && b.Name() == "append" {
+				if b, isB := y.Common().Value.(*ssa.Builtin); isB && b.Name() == "append" && y.Common().Args[0] == v {
 					if len(y.Common().Args) == 2 {
 						if sl, isSl := y.Common().Args[1].(*ssa.Slice); isSl {
 							if es, ok2 := localSliceElems(sl); ok2 {
